@@ -1,4 +1,4 @@
-"""gen/ArithTable.v from brush-parser/src/arithmetic.rs (the `precedence!{}` block of rule
+"""gen/C07ArithTable.v from brush-parser/src/arithmetic.rs (the `precedence!{}` block of rule
 `expression`, the character classes of the lexical rules, the radix bounds and digit maps of
 `parse_shell_literal_number`) and MAX_VARIABLE_DEREF_DEPTH of brush-core/src/arithmetic.rs.
 
@@ -19,7 +19,7 @@ INCOPS = {"PrefixIncrement": "PreInc", "PrefixDecrement": "PreDec", "PostfixIncr
 
 
 def broken(msg):
-    raise core.CheckBroken("translator ex_arith: " + msg)
+    raise core.CheckBroken("translator ex_c07_arith: " + msg)
 
 
 def strip_line_comments(txt):
@@ -409,7 +409,7 @@ def extract():
 
     def dm(m):
         return "[" + "; ".join("(%d%%N, %d%%N, %d)" % a for a in m) + "]"
-    out = ["(** GENERATED by translator/ex_arith.py from %s - do not edit. *)" % "brush-parser/src/arithmetic.rs",
+    out = ["(** GENERATED by translator/ex_c07_arith.py from %s - do not edit. *)" % "brush-parser/src/arithmetic.rs",
            "From BV Require Import Base.Prelude Arith.Ast Arith.Lit Arith.PegPrec.", "",
            "Definition arith_lex : lexcfg := {|",
            "  ws_class := %s;" % coq_class(ws_class),
@@ -439,8 +439,8 @@ def extract():
         lv_txt.append("  [ " + ";\n    ".join(lvl) + " ]")
     out.append(";\n".join(lv_txt))
     out.append("].")
-    return regen.write_if_changed("ArithTable.v", "\n".join(out) + "\n")
+    return regen.write_if_changed("C07ArithTable.v", "\n".join(out) + "\n")
 
 
-EXTRACTORS = {"arith_table": extract}
-USES = {"C07": ["arith_table"]}
+EXTRACTORS = {"c07_arith": extract}
+USES = {"C07": ["c07_arith"]}
